@@ -266,7 +266,13 @@ func (f *DefaultFanController) UpdateFanSpeed() error {
 func (f *DefaultFanController) RunInitializationSequence() (err error) {
 	fan := f.fan
 
-	err1 := f.computePwmMap()
+	// the whole analysis (pwm sweep and rpm curve measurement) must not overlap with another fan's
+	if !configuration.CurrentConfig.RunFanInitializationInParallel {
+		InitializationSequenceMutex.Lock()
+		defer InitializationSequenceMutex.Unlock()
+	}
+
+	err1 := f.computePwmMapUnlocked()
 	if err1 != nil {
 		ui.Warning("Error computing PWM map: %v", err1)
 	}
@@ -587,7 +593,11 @@ func (f *DefaultFanController) computePwmMap() (err error) {
 		InitializationSequenceMutex.Lock()
 		defer InitializationSequenceMutex.Unlock()
 	}
+	return f.computePwmMapUnlocked()
+}
 
+// computePwmMapUnlocked is computePwmMap without taking the InitializationSequenceMutex
+func (f *DefaultFanController) computePwmMapUnlocked() (err error) {
 	var configOverride *map[int]int
 
 	switch f := f.fan.(type) {
